@@ -52,7 +52,7 @@ namespace
   void
   on_alarm (int)
   {
-    static char const msg[] = "viol hang -\n";
+    static char const msg[] = "\nviol hang -\n";
     ssize_t r = write (g_cli_out, msg, sizeof msg - 1);
     (void) r;
     _exit (81);
